@@ -6,6 +6,7 @@
 -/
 import BespokeVerif.Model.Output
 import BespokeVerif.Lemmas.Output
+import BespokeVerif.Lemmas.FormatsImage
 namespace BV.C16
 open BV
 
@@ -92,5 +93,46 @@ example : parseIRec ":0300100010111 2BA".toList = .error .other := by decide +ke
 example : parseIRec ":03001000101112BA".toList = .ok { addr := 16, typ := 0, data := [16, 17, 18] } := by decide +kernel
 example : decMinHexLines [":aa 01".toList, "00020".toList, ":41".toList] 0 [] = .ok [(0, 170), (1, 1), (32, 65)] := by
   decide +kernel
+
+/-! ## the formats and the image, end to end -/
+
+/-- the pretty printers are fed the very lines the image is made of: the address→byte pairs of the lines
+    handed to the printers are those of the unmuted emitted byte lines, in the same order -/
+theorem printers_fed_image_lines (cfg : Cfg) (L : Labels) (ps : List Placed) (es : List Emitted)
+    (h : emitAll cfg L ps = .ok es) :
+    ∃ ols, toOutLines cfg L ps = .ok ols ∧ outLinesMap ols = emittedMap es :=
+  toOutLines_of_emitAll cfg L ps es h
+
+/-- end to end, for EVERY accepted program and every window / fill: the printers receive a line list, and each
+    byte of the binary image is what that list says about its address (the fill value where it says nothing) -/
+theorem accepted_image_is_what_printers_get (cfg : Cfg) (files : List (List Stmt)) (start : Int) (stop : Option Int)
+    (fill : Nat) (o : Outcome) (h : assemble cfg files start stop fill = .ok o) :
+    ∃ ols, assembleOut cfg files = .ok ols ∧
+      o.image = (List.range o.image.length).map fun (i : Nat) =>
+        (mapGet (outLinesMap ols) (start + (i : Int))).getD (fill % 256) :=
+  image_eq_outLines cfg files start stop fill o h
+
+/-- … hence the image is what the decoded compact-hex text says, for every accepted program in which every gap
+    is announced by an `.org` (partial: the excluded class is the listed finding D17) -/
+theorem accepted_image_eq_decoded_minhex_partial (cfg : Cfg) (files : List (List Stmt)) (start : Int) (stop : Option Int)
+    (fill : Nat) (o : Outcome) (h : assemble cfg files start stop fill = .ok o)
+    (ols : List OutLine) (hols : assembleOut cfg files = .ok ols)
+    (hgap : everyGapHasOrg ols 0 = true) (hnn : ∀ a, OutLine.org a ∈ ols → 0 ≤ a) :
+    o.image = (List.range o.image.length).map fun (i : Nat) =>
+      (mapGet (mhRowsToMap (encMinHex ols []) 0 []) (start + (i : Int))).getD (fill % 256) := by
+  obtain ⟨ols', h1, h2⟩ := image_eq_outLines cfg files start stop fill o h
+  rw [hols] at h1
+  cases h1
+  rw [minhex_roundtrip_partial ols hgap hnn]
+  exact h2
+
+/-- non-vacuity: three placed lines (one of them muted); what the image lines say and what the printers are
+    handed is the same list of address→byte pairs -/
+def exCfg16 : Cfg := { bits := 8, origin := 0, little := true, pageSize := 1, regs := [], preZones := [], preConsts := [], preData := [] }
+def exPl : List Placed := [{ line := { stmt := .bytes [1, 2], scope := .file 0, zone := "GLOBAL", muted := false, file := 0 }, addr := 0, size := 2 },
+  { line := { stmt := .bytes [9], scope := .file 0, zone := "GLOBAL", muted := true, file := 0 }, addr := 2, size := 1 },
+  { line := { stmt := .bytes [3], scope := .file 0, zone := "GLOBAL", muted := false, file := 0 }, addr := 8, size := 1 }]
+example : (emitAll exCfg16 {} exPl).toOption.map emittedMap = some [(0, 1), (1, 2), (8, 3)] := by decide +kernel
+example : (toOutLines exCfg16 {} exPl).toOption.map outLinesMap = some [(0, 1), (1, 2), (8, 3)] := by decide +kernel
 
 end BV.C16
